@@ -399,8 +399,11 @@ func enumerate(c *core.Ctx, si shapeInfo) []Scn {
 			for j := 1; j <= n; j++ {
 				for k := j + 2; k <= n; k++ {
 					add("in_step_then_completes", "cancel", "std", k, j, nil)
+					add("in_step_then_completes", "derived", "std", k, j, nil)
 					if !si.sh.NoProbe {
 						add("between_steps", "cancel", "probe", k, j, nil)
+						add("between_steps", "deadline", "probe", k, j, nil)
+						add("in_step_then_completes", "deadline", "probe", k, j, nil)
 					}
 				}
 			}
@@ -411,12 +414,14 @@ func enumerate(c *core.Ctx, si shapeInfo) []Scn {
 				cb := cb
 				for k := 1; k <= n; k++ {
 					add("during_stall", "cancel", "std", k, k, func(s *Scn) { s.Mode, s.CB = "reuse", cb })
+					add("during_stall", "derived", "std", k, k, func(s *Scn) { s.Mode, s.CB = "reuse", cb })
 					if k == 1 || k == n {
 						add("during_stall", "deadline", "std", k, k, func(s *Scn) { s.Mode, s.CB = "reuse", cb })
 					}
 					// duplex needs a stream whose first protected frames are behind it: plain or imported
 					if !strings.Contains(si.sh.Name, "enc") && !strings.HasSuffix(si.sh.Name, "_setconn") || strings.HasSuffix(si.sh.Name, "_imported") {
 						add("during_stall", "cancel", "std", k, k, func(s *Scn) { s.Mode, s.CB = "duplex", cb })
+						add("during_stall", "derived", "std", k, k, func(s *Scn) { s.Mode, s.CB = "duplex", cb })
 					}
 				}
 				for j := 1; j < n; j++ {
